@@ -604,8 +604,9 @@ def label_tok(v):
     return "i:%d" % int(v)
 
 
-def fit_model(ctx, kind, binner, X, y, w, n_jobs, random_state):
-    """Fit the real estimator with recorders on.  Returns dict(model, err, shuffles, mapping)."""
+def fit_model(ctx, kind, binner, X, y, w, n_jobs, random_state, used_before=None):
+    """Fit the real estimator with recorders on.  Returns dict(model, err, shuffles, mapping).
+    `used_before` = (X0, y0, w0, B0): the same object is first fitted on that training set and used on B0."""
     import warnings
     from mlinsights.mlmodel.piecewise_estimator import PiecewiseRegressor, PiecewiseClassifier, PiecewiseEstimator
     C = classes(ctx)
@@ -614,6 +615,16 @@ def fit_model(ctx, kind, binner, X, y, w, n_jobs, random_state):
     else:
         model = PiecewiseClassifier(binner, C["RecClf"](), n_jobs=n_jobs, random_state=random_state)
     out = {"model": model, "err": None}
+    if used_before is not None:
+        X0, y0, w0, B0 = used_before
+        with warnings.catch_warnings():
+            warnings.simplefilter("ignore")
+            try:
+                model.fit(X0, y0, w0)
+                model.transform_bins(B0)
+                (model.predict if kind == "reg" else model.predict_proba)(B0)
+            except Exception:  # noqa: BLE001
+                pass
     with warnings.catch_warnings():
         warnings.simplefilter("ignore")
         with ShuffleRecorder() as sr, MappingRecorder(PiecewiseEstimator) as mr:
@@ -816,13 +827,24 @@ def check_recording(ctx, gen_seed, kind, label_type="int", njobs_list=(None, 1, 
     rng = random.Random(gen_seed)
     X, y, w, B, codes, cls_ = make_case(rng, kind, label_type)
     bname, binner = make_binner(ctx, rng, kind)
+    if bname.startswith("kbins") and rng.random() < 0.4:
+        # another number of bins per feature, the later features finer than the first
+        from sklearn.preprocessing import KBinsDiscretizer
+        bname = "kbins-per-feature"
+        binner = KBinsDiscretizer(n_bins=[2 + j + (j % 2) for j in range(X.shape[1])], strategy="uniform")
+    used_before = None
+    if rng.random() < 0.4:
+        # history: the object under test served another training set (other buckets) before
+        X0, y0, w0, B0, _, _ = make_case(rng, kind, label_type)
+        if X0.shape[1] == X.shape[1]:
+            used_before = (X0, y0, w0, B0)
     random_state = rng.randrange(1000) if kind == "clf" and rng.random() < 0.8 else None
     bad = []
     sigs = {}
     info = {"binner": bname, "n": int(X.shape[0]), "weights": w is not None, "random_state": random_state}
     for nj in njobs_list:
         from sklearn.base import clone
-        r = fit_model(ctx, kind, clone(binner), X, y, w, nj, random_state)
+        r = fit_model(ctx, kind, clone(binner), X, y, w, nj, random_state, used_before=used_before)
         model = r["model"]
         if r["err"] is not None:
             if "Unknown label type" in r["err"]:
@@ -973,6 +995,10 @@ def check_real(ctx, gen_seed, label_type):
         try:
             model.fit(X, y, w)
         except Exception as e:
+            if "at least one non-zero" in str(e):
+                # a bucket (or a borrowed completion) whose rows all have weight 0: scikit-learn's local estimator
+                # refuses such a training set itself - not a training set the statement speaks about
+                return [], dict(info, skipped="a bucket with all-zero weights")
             bad.append((K_RAISE, "fit raises on a valid training set (labels %s)" % label_type,
                         "%s: %s" % (type(e).__name__, str(e)[:150]), "a fitted model"))
             return bad, info
